@@ -204,18 +204,26 @@ def _pkey(name):
 # ------------------------------------------------------------------ independent request writer
 
 
-def sig_template(ref_id, keyinfo=None, sigalg=RSA_SHA256, digalg="http://www.w3.org/2001/04/xmlenc#sha256"):
+T_ENV = "http://www.w3.org/2000/09/xmldsig#enveloped-signature"
+T_EXC = "http://www.w3.org/2001/10/xml-exc-c14n#"
+T_EXC_C = "http://www.w3.org/2001/10/xml-exc-c14n#WithComments"
+T_INC = "http://www.w3.org/TR/2001/REC-xml-c14n-20010315"
+
+
+def sig_template(ref_id, keyinfo=None, sigalg=RSA_SHA256, digalg="http://www.w3.org/2001/04/xmlenc#sha256",
+                 uris=None, transforms=(T_ENV, T_EXC), c14n=T_EXC):
     ki = ""
     if keyinfo:
         ki = ("<ds:KeyInfo><ds:X509Data><ds:X509Certificate>%s</ds:X509Certificate></ds:X509Data></ds:KeyInfo>"
               % S.cert_b64(keyinfo))
-    return ('<ds:Signature xmlns:ds="%s"><ds:SignedInfo>'
-            '<ds:CanonicalizationMethod Algorithm="http://www.w3.org/2001/10/xml-exc-c14n#"/>'
-            '<ds:SignatureMethod Algorithm="%s"/><ds:Reference URI="#%s"><ds:Transforms>'
-            '<ds:Transform Algorithm="http://www.w3.org/2000/09/xmldsig#enveloped-signature"/>'
-            '<ds:Transform Algorithm="http://www.w3.org/2001/10/xml-exc-c14n#"/></ds:Transforms>'
-            '<ds:DigestMethod Algorithm="%s"/><ds:DigestValue></ds:DigestValue></ds:Reference></ds:SignedInfo>'
-            "<ds:SignatureValue></ds:SignatureValue>%s</ds:Signature>" % (DS, sigalg, ref_id, digalg, ki))
+    refs = "".join(
+        '<ds:Reference URI="%s"><ds:Transforms>%s</ds:Transforms><ds:DigestMethod Algorithm="%s"/>'
+        "<ds:DigestValue></ds:DigestValue></ds:Reference>"
+        % (u, "".join('<ds:Transform Algorithm="%s"/>' % t for t in transforms), digalg)
+        for u in (uris if uris is not None else ["#" + ref_id]))
+    return ('<ds:Signature xmlns:ds="%s"><ds:SignedInfo><ds:CanonicalizationMethod Algorithm="%s"/>'
+            '<ds:SignatureMethod Algorithm="%s"/>%s</ds:SignedInfo>'
+            "<ds:SignatureValue></ds:SignatureValue>%s</ds:Signature>" % (DS, c14n, sigalg, refs, ki))
 
 
 def request_xml(service, rid, issuer, instant, version="2.0", destination=None, sig=None, consent=CONSENT0):
@@ -273,6 +281,104 @@ def detached_sign(key, saml_request, relay_state, sigalg):
     parts.append(("SigAlg", sigalg))
     octets = "&".join(urllib.parse.urlencode({k: v}) for k, v in parts).encode("ascii")
     return base64.b64encode(_pkey(key).sign(octets, padding.PKCS1v15(), h())).decode()
+
+
+# ------------------------------------------------------------------ signature-structure surgery
+#
+# name -> (intact, profile_ok, covers): the harness's own bookkeeping of what it built --
+#   intact      xmlsec verifies the element(s) the Reference(s) name (given the right certificate)
+#   profile_ok  the structure meets the SAML xmldsig profile (one Reference, URI = '#' + ID of the enclosing
+#               request, c14n/transforms from the allowed set with the enveloped transform, no ds:Object)
+#   covers      the signature verifies over the request element that is processed
+SURGERIES = {
+    "enveloped-only-transform": (True, True, True),     # a single (enveloped) transform is within the profile
+    "with-comments-transform": (True, True, True),
+    "wrap-object": (True, False, False),                # issuer's old signature on another request, original in ds:Object
+    "wrap-object-same-id": (False, False, False),       # ... without changing the ID: duplicate ID
+    "wrap-extensions": (True, False, False),            # ... original hidden in samlp:Extensions
+    "hidden-ref-no-enveloped": (True, False, False),    # Reference to an element inside ds:Object, no enveloped transform
+    "two-references": (True, False, True),
+    "two-references-second-hidden": (True, False, True),
+    "no-enveloped-transform": (False, False, False),    # cannot verify: the digest would have to cover itself
+    "extra-transform": (True, False, True),             # three transforms
+    "foreign-transform": (True, False, True),           # enveloped + inclusive c14n
+    "foreign-c14n-method": (True, False, True),
+    "object-present": (True, False, True),              # ds:Object added to an otherwise good signature
+    "uri-empty": (True, False, True),                   # URI="" (whole document)
+    "id-changed": (False, False, False),                # ID rewritten after signing, Reference dangling
+    "id-changed-uri-updated": (False, True, False),     # ... and the URI with it: SignedInfo no longer verifies
+    "moved-to-child": None,                             # Signature inside Extensions: not the request's signature at all
+}
+
+
+def env_surgery(name, key="sp"):
+    e = {"key": key, "corrupt": None, "keyinfo": key, "surgery": name}
+    if SURGERIES[name] is None:
+        e["as_absent"] = True
+    else:
+        e["intact"], e["profile_ok"], e["covers"] = SURGERIES[name]
+    return e
+
+
+def _cut_signature(xml):
+    a = xml.index("<ds:Signature")
+    b = xml.index("</ds:Signature>") + len("</ds:Signature>")
+    return xml[:a], xml[a:b], xml[b:]
+
+
+def build_surgery(case, rid):
+    """The request with the structure of its enveloped signature operated on (env["surgery"])."""
+    env = case["env"]
+    name, key, svc = env["surgery"], env["key"], case["service"]
+    ki = env.get("keyinfo")
+    args = (case["issuer"], _instant_str(case), case["version"], case["dest"])
+
+    def signed(rid_, sig_, consent=CONSENT0):
+        return sign_enveloped(request_xml(svc, rid_, *args, sig=sig_, consent=consent), svc, rid_, key)
+
+    if name in ("wrap-object", "wrap-object-same-id", "wrap-extensions"):
+        rid_o = rid if name == "wrap-object-same-id" else rid + "-orig"
+        pre, sig, post = _cut_signature(signed(rid_o, sig_template(rid_o, ki)))
+        hidden = pre + post                                    # the original request, what the issuer's digest covers
+        if name == "wrap-extensions":
+            carried = sig + "<samlp:Extensions>%s</samlp:Extensions>" % hidden
+        else:
+            carried = sig[:-len("</ds:Signature>")] + "<ds:Object>%s</ds:Object></ds:Signature>" % hidden
+        # the request that is processed: another ID, other content (Consent), the old signature
+        return request_xml(svc, rid, *args, sig=carried, consent=CONSENT1)
+    if name == "hidden-ref-no-enveloped":
+        hidden = request_xml(svc, rid + "-hid", *args)
+        tmpl = sig_template(rid, ki, uris=["#" + rid + "-hid"], transforms=(T_EXC,))
+        tmpl = tmpl[:-len("</ds:Signature>")] + "<ds:Object>%s</ds:Object></ds:Signature>" % hidden
+        return signed(rid, tmpl)
+    if name == "two-references-second-hidden":
+        hidden = request_xml(svc, rid + "-hid", *args)
+        tmpl = sig_template(rid, ki, uris=["#" + rid, "#" + rid + "-hid"])
+        tmpl = tmpl[:-len("</ds:Signature>")] + "<ds:Object>%s</ds:Object></ds:Signature>" % hidden
+        return signed(rid, tmpl)
+    tmpl_kw = {
+        "enveloped-only-transform": {"transforms": (T_ENV,)},
+        "with-comments-transform": {"transforms": (T_ENV, T_EXC_C), "c14n": T_EXC_C},
+        "two-references": {"uris": ["#" + rid, "#" + rid]},
+        "no-enveloped-transform": {"transforms": (T_EXC,)},
+        "extra-transform": {"transforms": (T_ENV, T_EXC, T_INC)},
+        "foreign-transform": {"transforms": (T_ENV, T_INC)},
+        "foreign-c14n-method": {"c14n": T_INC},
+        "uri-empty": {"uris": [""]},
+    }.get(name, {})
+    xml = signed(rid, sig_template(rid, ki, **tmpl_kw))
+    if name == "object-present":
+        pre, sig, post = _cut_signature(xml)
+        xml = pre + sig[:-len("</ds:Signature>")] + "<ds:Object>note</ds:Object></ds:Signature>" + post
+    elif name == "moved-to-child":
+        pre, sig, post = _cut_signature(xml)
+        xml = pre + "<samlp:Extensions>%s</samlp:Extensions>" % sig + post
+    elif name in ("id-changed", "id-changed-uri-updated"):
+        assert xml.count(' ID="%s"' % rid) == 1
+        xml = xml.replace(' ID="%s"' % rid, ' ID="%s-new"' % rid, 1)
+        if name == "id-changed-uri-updated":
+            xml = xml.replace('URI="#%s"' % rid, 'URI="#%s-new"' % rid, 1)
+    return xml
 
 
 # ------------------------------------------------------------------ endpoint configurations
@@ -460,7 +566,7 @@ DAY = 86400
 
 def mk(service, binding, req, env, relay=None, sigalg=None, det=None, dest=None, version="2.0", off=0, fmt="z",
        raw_instant=None, slack=None, eps=None, receiver="idp", issuer=None, md_variant="plain", validate_cert=None,
-       now=S.NOW0, builder="own", loader=False, tz=None):
+       now=S.NOW0, builder="own", loader=False, tz=None, raw_true=None):
     issuer = issuer if issuer is not None else (S.IDP_ID if receiver == "sp" else S.SP_ID)
     eps = eps if eps is not None else (sp_eps() if receiver == "sp" else std_eps(service))
     ctxs = ["sp"] if receiver == "sp" else CONTEXTS
@@ -475,7 +581,9 @@ def mk(service, binding, req, env, relay=None, sigalg=None, det=None, dest=None,
         c["tz"] = tz  # the zone the receiving process runs in (not an input of model or specification: both are in UTC)
     if raw_instant is not None:
         c["instant"] = {"raw": raw_instant}
-        c["ts"] = None
+        c["ts"] = raw_true          # the instant the text denotes (None: no xs:dateTime at all) ...
+        if raw_true is not None:
+            c["ts_lex_ok"] = False  # ... written in a form the receiver does not read (numeric zone designator)
     else:
         c["instant"] = {"off": off, "fmt": fmt}
         c["ts"] = now + off
@@ -527,8 +635,25 @@ def directed_cases(rng, tier):
         for service in ("single_sign_on_service", "attribute_service"):
             if raw.startswith("2001-01-01T"):  # F7's replay: a well-formed instant, decades old
                 yield mk(service, "post", REQS["unset"], None, off=978307200 - S.NOW0)
+            elif raw.endswith("+02:00"):
+                yield mk(service, "post", REQS["unset"], None, raw_instant=raw, raw_true=S.NOW0 - 7200)
             else:
                 yield mk(service, "post", REQS["unset"], None, raw_instant=raw)
+    # xs:dateTime with a numeric zone designator: the instant is wall clock minus offset.  The unchanged code refuses
+    # the form; whoever starts reading it must honour the offset.
+    H = 3600
+    for slack in (None, 60):
+        s = slack or 0
+        for true_off in (0, DAY - H, -(DAY - H), DAY + s + 1, -(DAY + s + 1), DAY + s + 5 * H, -(DAY + s + 5 * H),
+                         DAY + s + 11 * H, -(DAY + s + 11 * H)):
+            for zh, zm in ((12, 0), (-12, 0), (2, 0), (-8, 0), (0, 0), (5, 30), (-3, 30), (14, 0)):
+                zone = zh * H + (zm * 60 if zh >= 0 else -zm * 60)
+                for frac in (False, True):
+                    text = S.fmt_time(S.NOW0 + true_off + zone, frac=frac, z=False) + "%s%02d:%02d" % ("+" if zone >= 0 else "-", abs(zh), zm)
+                    for service in ("single_sign_on_service", "single_logout_service", "attribute_service"):
+                        yield mk(service, "post", REQS["unset"], None, raw_instant=text, raw_true=S.NOW0 + true_off, slack=slack)
+                yield mk("single_logout_service", "soap", REQS["want"], ENV_STATES["valid"], raw_instant=text,
+                         raw_true=S.NOW0 + true_off, slack=slack)
     # different clock values (the window moves with the receiver's clock)
     for now in (S.NOW0 - 10 ** 7, S.NOW0 + 10 ** 7, 951782400, 4102444800 - 5):
         for off in (-(DAY + 1), -DAY, 0, DAY - 1, DAY):
@@ -645,6 +770,8 @@ def random_cases(rng, n):
         req = rng.choice(list(REQS.values()) * 3 + REQ_VARIANTS)
         env = rng.choice([None, None, ENV_STATES["valid"], ENV_STATES["valid"], ENV_STATES["corrupted"], ENV_STATES["untrusted"]]
                          + ENV_VARIANTS)
+        if rng.random() < 0.08:
+            env = env_surgery(rng.choice(list(SURGERIES)), rng.choice(["sp", "sp", "sp", "attacker", "sp_enc2"]))
         if takes_query_params(service):
             if rng.random() < 0.6:
                 relay, sigalg, det = det_fields(rng.choice(DET_STATES), relay=rng.choice([None, "rs-1", "", "x y"]),
@@ -715,8 +842,33 @@ def tz_cases(rng, tier):
         yield c
 
 
+def surgery_cases(rng, tier):
+    """Structure of the enveloped signature operated on (the content/key/address streams leave it alone): every
+    request kind x binding x requirement x every operation; plus a few with another key, destination or instant."""
+    for service in SERVICES:
+        for name in SURGERIES:
+            for binding in ("post", "soap", "redirect"):
+                for rname in REQS:
+                    if binding == "redirect" and takes_query_params(service):
+                        yield mk(service, binding, REQS[rname], env_surgery(name), *det_fields("valid"))
+                    else:
+                        yield mk(service, binding, REQS[rname], env_surgery(name))
+    for name in SURGERIES:
+        for key in ("attacker", "sp2", "sp_enc2"):
+            for rname in ("unset", "want", "cert-only"):
+                for mdv in ("plain", "rotated"):
+                    yield mk("single_sign_on_service", "post", REQS[rname], env_surgery(name, key), md_variant=mdv)
+        yield mk("single_sign_on_service", "post", REQS["want"], env_surgery(name), dest=S.IDP_SSO_POST)
+        yield mk("single_sign_on_service", "post", REQS["want"], env_surgery(name), dest="https://evil.example/endpoint")
+        yield mk("single_logout_service", "soap", REQS["want"], env_surgery(name), off=-(DAY + 1))
+        yield mk("single_logout_service", "soap", REQS["want"], env_surgery(name), version="1.1")
+        yield mk("single_logout_service", "post", REQS["unset"], env_surgery(name, "idp_sign"), receiver="sp")
+        yield mk("single_sign_on_service", "post", REQS["want"], env_surgery(name), validate_cert=True)
+
+
 def gen_cases(rng, tier):
     yield from table_cases()
+    yield from surgery_cases(rng, tier)
     yield from directed_cases(rng, tier)
     yield from tz_cases(rng, tier)
     yield from history_cases(rng, tier)
@@ -842,6 +994,7 @@ def search_cases(rng, broken, build_log):
                 for env in [None] + list(ENV_STATES.values())[1:] + ENV_VARIANTS:
                     for mdv in ("plain", "rotated"):
                         yield mk(service, binding, REQS[rname], env, md_variant=mdv)
+    yield from surgery_cases(rng, "quick")
     yield from random_cases(rng, 3000)
 
 
@@ -910,6 +1063,12 @@ def build_message(case):
     if key in _msg_cache:
         return _msg_cache[key]
     rid = "id-" + hashlib.sha1(key.encode()).hexdigest()[:20]
+    if env is not None and env.get("surgery"):
+        xml = build_surgery(case, rid)
+        if len(_msg_cache) > 256:
+            _msg_cache.clear()
+        _msg_cache[key] = xml
+        return xml
     sig = None
     if env is not None:
         sig = sig_template(rid, env.get("keyinfo"), env.get("sigalg", RSA_SHA256),
@@ -1000,6 +1159,7 @@ def _deliver(ent, case):
                 signed_over = enc if det["msg"] == "M" else transport(xml + "<!-- other -->", binding)
                 kw["signature"] = detached_sign(det["key"], signed_over, det["relay"], det["alg"])
         method = getattr(ent, KINDS[case["service"]][3])
+        del X.LOG[:]
         with _tz(case.get("tz")):  # only the receiver runs in the other zone
             try:
                 res = method(enc, BIND[binding], **kw)
@@ -1009,7 +1169,18 @@ def _deliver(ent, case):
         return {"r": "rejected", "err": "None"}
     if res.message is None or res.message.id is None:
         return {"r": "rejected", "err": "no-message"}
-    return {"r": "processed"}
+    out = {"r": "processed"}
+    # which element did the stand-in verify?  (cross-check of the harness's own `covers` bookkeeping)
+    env = case.get("env")
+    oks = [r_ for r_ in X.LOG if r_.get("mode") == "verify" and r_.get("ok")]
+    if env is not None and not env.get("as_absent") and oks and case.get("builder") != "client":
+        any_processed = any(i == res.message.id for _t, i in oks[-1].get("covered", []))
+        out["verified_ids"] = [i for _t, i in oks[-1].get("covered", [])]
+        book = env.get("covers", env.get("intact", env.get("corrupt") is None))
+        if book != any_processed:
+            raise RuntimeError("covers bookkeeping (%s) contradicts the stand-in's log %r for processed id %s"
+                               % (book, out["verified_ids"], res.message.id))
+    return out
 
 
 def _entity_spec(e):
@@ -1187,7 +1358,8 @@ def distribution(recs):
         inc("binding", c["binding"])
         inc("requirement", "want=%s,cert_only=%s" % (c["cfg"].get("want"), c["cfg"].get("cert_only")))
         e = c.get("env")
-        inc("enveloped", "absent" if e is None else "%s%s" % (e["key"], "/corrupt-" + e["corrupt"] if e.get("corrupt") else ""))
+        inc("enveloped", "absent" if e is None else "surgery:" + e["surgery"] if e.get("surgery") else
+            "%s%s" % (e["key"], "/corrupt-" + e["corrupt"] if e.get("corrupt") else ""))
         det = c.get("det")
         inc("detached", "absent" if det is None else "garbage" if "garbage" in det else
             "signed:%s%s" % (det["key"], "" if (det["msg"] == "M" and det["relay"] == c.get("relay") and det["alg"] == c.get("sigalg")) else "/mismatch"))
